@@ -102,6 +102,8 @@ func Facts(f *hc.Facts) {
 	}
 	dhFacts(f)
 	TLFacts(f)
+	ProgramFacts(f, "server", "ServerExchange.Run")
+	DefFacts(f, "server", "ServerExchange.Run", []string{"serverNonce", "pq", "dhPrime", "g", "a", "key", "answer", "decrypted", "gB", "serverSalt"})
 }
 
 // dhFacts: crypto.CheckDHParams as the ordered list of its InRange tests (which value against
